@@ -270,4 +270,41 @@ def rule_near(ctx):
     ctx.ob("C04.NEAR", ip, "is_parent(other) is success of other.relative_to(self.path)", body_ok, "is_parent is no longer `other.relative_to(self.path)` success", construct="is_parent form")
 
 
-RULES = [rule_kind, rule_wrapper, rule_near]
+def rule_same(ctx):
+    p = ctx.p
+    ctx.rule("C04.SAME", "a permission-guarded handler resolves its path in the same atomic section as the permission lookup: in its own body before the "
+                         "first suspension point, never inside a deferred worker (the working directory may change at any suspension point)")
+    n = 0
+    for verb, name, fn in p.handlers():
+        if not any(d.name == "PathPermissions" for d in p.decorators(fn)):
+            continue
+        n += 1
+        nested_calls = [c for w in p.nested_functions(fn) for c in ast.walk(w) if isinstance(c, ast.Call) and (dotted(c.func) or "").endswith(".get_paths")]
+        ctx.ob("C04.SAME", nested_calls[0] if nested_calls else fn, f"{name}: the deferred worker does not resolve the path again", not nested_calls,
+               f"{name}: the path is resolved inside the deferred worker, after the permission was checked for the path as resolved at command time: "
+               "a CWD in between makes the transfer operate on a location that was never authorised", construct=f"{name}:resolver in worker")
+        late = None
+        for ev, out in enum_paths(p, fn):
+            suspended = False
+            for e in ev:
+                node = e[1].iter if e[0] in ("iter", "aiter") else e[1] if e[0] in ("stmt", "branch", "enter") else None
+                if node is None or isinstance(node, FuncT):
+                    continue
+                if suspended and any(isinstance(c, ast.Call) and (dotted(c.func) or "").endswith(".get_paths") for c in walk_self(node)):
+                    late = node
+                if e[0] == "aiter" or may_suspend_node(p, node, fn):
+                    suspended = True
+        ctx.ob("C04.SAME", late if late is not None else fn, f"{name}: the handler resolves its path before its first suspension point", late is None,
+               f"{name}: the handler resolves the path after a suspension point; the working directory may have changed since the permission check",
+               construct=f"{name}:resolver after suspension")
+    # the wrapper itself: no suspension point between its resolution and the call of the wrapped handler other than the lookup
+    w = p.wrapper_of("PathPermissions")
+    susp = [a for a in walk_no_nested(w) if isinstance(a, ast.Await) and may_suspend_await(p, a, w)
+            and not (isinstance(a.value, ast.Call) and isinstance(a.value.func, ast.Name) and a.value.func.id == p.wrapped_param("PathPermissions"))]
+    ctx.ob("C04.SAME", susp[0] if susp else w, "the permission wrapper does not suspend between resolving the path and calling the handler", not susp,
+           "the permission wrapper may suspend between its path resolution and the handler call", construct="wrapper:suspends")
+    if n < 10:
+        ctx.floor_errors.append(f"rule=C04.SAME: {n} guarded handlers (floor 10)")
+
+
+RULES = [rule_kind, rule_wrapper, rule_near, rule_same]
